@@ -148,6 +148,10 @@ Definition auths_wire (l : list (Z * Z * Z)) : Z := sumZ (map (fun a => snd a) l
 Definition request_len (q : request) : Z :=
   HEADER_V4_LENGTH + fields_wire (q_untrusted q) + fields_wire (q_auth q) + auths_wire (q_auths q) + q_mac q.
 
+(* KeySet::encode_cookie: length of a fresh cookie for the session's algorithm *)
+Definition cookie_len (alg : Z) : Z :=
+  2 + 4 + 16 + 16 + 2 + 2 * (if alg =? AEAD_ID_512 then COOKIE_KEYWIDTH_512 else COOKIE_KEYWIDTH_256).
+
 (* what the decoder guarantees about a request it reports (checked on every correspondence case) *)
 Definition auth_ok (a : Z * Z * Z) : bool :=
   match a with (n, c, w) => (0 <=? n) && (0 <=? c) && (8 + next4 n + c <=? w) && (w mod 4 =? 0) && (w <=? 65535) end.
@@ -167,14 +171,14 @@ Definition wf_request (q : request) : bool :=
   let v5 := q_version q =? 5 in
   forallb (field_ok v5) (q_untrusted q) && forallb (field_ok v5) (q_auth q) && forallb (field_ok v5) (q_enc q)
   && forallb auth_ok (q_auths q)
-  && negb (existsb (fun f => match f with FInvalidNts => true | _ => false end) (q_auth q ++ q_enc q))
+  && negb (existsb (fun f => match f with FInvalidNts => true | _ => false end) (q_enc q))
   && (0 <=? q_mac q) && (q_mac q <=? MAC_MAXIMUM_SIZE) && ((q_mac q =? 0) || (4 <=? q_mac q))
   && (len (q_xmit q) =? 8)
   && (if q_version q =? 3 then is_nil (q_untrusted q) && is_nil (q_auth q) && is_nil (q_enc q) && is_nil (q_auths q)
                                && negb (q_decrypt_failed q) && negb (q_upgrade q)
                                && match q_cookie q with None => true | _ => false end
       else (q_version q =? 4) || (q_version q =? 5))
-  && (if v5 then (q_mac q =? 0) && has_draft (q_untrusted q ++ q_auth q) && negb (q_upgrade q) else true)
+  && (if v5 then (q_mac q =? 0) && (q_decrypt_failed q || has_draft (q_untrusted q ++ q_auth q)) && negb (q_upgrade q) else true)
   && (if q_decrypt_failed q then true
       else match q_cookie q with
            | Some alg =>
@@ -183,6 +187,8 @@ Definition wf_request (q : request) : bool :=
                negb (is_nil (q_auths q))
                && (sumZ (map (fun a => snd (fst a)) (q_auths q)) =? fields_wire (q_enc q) + 16 * len (q_auths q))
                && ((alg =? AEAD_ID_256) || (alg =? AEAD_ID_512))
+               (* the cookie that gave the keys is an authenticated field and is at least as long as a fresh one *)
+               && existsb (fun f => match f with FCookie n => cookie_len alg <=? n | _ => false end) (q_auth q)
            | None => is_nil (q_auth q) && is_nil (q_enc q) && is_nil (q_auths q)
            end)
   && (request_len q <=? 65535).
@@ -280,9 +286,6 @@ Fixpoint echo_v5 (filter : list Z) (fs : list field) : list field :=
   | _ :: r => echo_v5 filter r
   end.
 
-(* KeySet::encode_cookie: length of a fresh cookie for the session's algorithm *)
-Definition cookie_len (alg : Z) : Z :=
-  2 + 4 + 16 + 16 + 2 + 2 * (if alg =? AEAD_ID_512 then COOKIE_KEYWIDTH_512 else COOKIE_KEYWIDTH_256).
 
 (* the filter_map of nts_timestamp_response *)
 Definition fresh_for (fresh : Z) (f : field) : option field :=
@@ -430,6 +433,27 @@ Definition handle (tf : bool) (cfg : config) (st : sstate) (q : request) (recv n
 (* the daemon's server task: receives [mlen] bytes and calls handle with &mut send_buf[..length] *)
 Definition daemon_reply (tf : bool) (cfg : config) (st : sstate) (q : request) (recv now : list Z) : outcome :=
   handle tf cfg st q recv now (request_len q) (request_len q).
+
+(* ---------------------------------------------------------------- the known class of C17 *)
+(* some echoed unique identifier is shorter on the wire than the minimum size at its place in the answer *)
+Fixpoint short_uid (minf : bool -> Z) (fs : list field) : bool :=
+  match fs with
+  | [] => false
+  | FUid d :: r => (next4 (4 + len d) <? next4 (Z.max (4 + len d) (minf (is_nil r)))) || short_uid minf r
+  | _ :: r => short_uid minf r
+  end.
+Definition is_nts_kind (k : kind) : bool :=
+  match k with KNtsTime | KNtsDeny | KNtsRate => true | _ => false end.
+(* KnownClass_C17: (a) short echoed unique identifier, (b) NTS answer to a request whose authenticator has a
+   nonce shorter than the answer's 16 bytes, (c) NTPv5 request without the draft identification whose NTS
+   authenticator failed (the draft check is skipped on that path, the NAK/DENY answer adds the field) *)
+Definition known_class_C17 (q : request) (k : kind) : bool :=
+  let v5 := q_version q =? 5 in
+  if is_nts_kind k then
+    short_uid min_auth (echo_uid (q_auth q)) || existsb (fun a => fst (fst a) <? NONCE_LEN_256) (q_auths q)
+  else
+    short_uid (min_untrusted v5) (echo_uid (q_untrusted q ++ q_auth q))
+    || (v5 && q_decrypt_failed q && negb (has_draft (q_untrusted q ++ q_auth q))).
 
 (* ---------------------------------------------------------------- correspondence entry point *)
 Definition tree_tf : bool := TAKE_AFTER_FILTER_SITES =? 2.
